@@ -76,7 +76,11 @@ func checkC19(c *Ctx) {
 						}
 						c.R.Fn(c.fname(f))
 						key := fmt.Sprintf("store into %s.Node.%s in %s", pkg, children, c.fname(f))
-						ru1.Check(c.nilGuardedMap(f, fa, x), key, c.whereI(x), "dominated by `if m == nil { m = make(...) }` on the same node", "the children map may be nil here (node rebuilt by Load, or zero Node): the store panics")
+						okStore, how := c.nilGuardedMap(f, fa, x), "dominated by `if m == nil { m = make(...) }` on the same node"
+						if !okStore && c.childrenAlwaysAllocated(pkg, isNode, children, fa.Field) {
+							okStore, how = true, "every node has its map from the moment it exists: literals allocate it, decoded trees are completed node by node before they are used"
+						}
+						ru1.Check(okStore, key, c.whereI(x), how, "the children map may be nil here (node rebuilt by Load, or zero Node): the store panics")
 					case *ssa.Call:
 						bi, ok := x.Call.Value.(*ssa.Builtin)
 						if !ok || bi.Name() != "delete" {
@@ -1018,4 +1022,101 @@ func (c *Ctx) ruleValueRemovalKeepsChildren(id string) {
 		}
 		ru.Check(bad == "" && n > 0, "node overwrites in package "+pkg, "-", fmt.Sprintf("%d payload assignment(s), no whole-node overwrite", n), bad+map[bool]string{true: "", false: "no assignment to the payload field found"}[n > 0 || bad != ""])
 	}
+}
+
+// childrenAlwaysAllocated: the package keeps the invariant "every Node has a non-nil children map": every Node literal
+// of the package's own code either sets the field to a fresh map, or is handed to proto.Unmarshal and then to a method
+// that allocates the map of the node it is called on (if nil) and calls itself on every child (so that a decoded tree
+// is completed node by node), before the function returns.
+func (c *Ctx) childrenAlwaysAllocated(pkg string, isNode func(types.Type) bool, children string, field int) bool {
+	// the completing methods
+	completes := map[*ssa.Function]bool{}
+	for _, g := range c.P.ModFuncs() {
+		if g.Package() == nil || g.Package().Pkg.Path() != c.P.Rel(pkg) || c.P.IsGenerated(g) || len(g.Params) == 0 || !isNode(g.Params[0].Type()) {
+			continue
+		}
+		allocs, recurses := false, false
+		for _, b := range g.Blocks {
+			for _, in := range b.Instrs {
+				switch x := in.(type) {
+				case *ssa.Store:
+					if fa, ok := x.Addr.(*ssa.FieldAddr); ok && fa.Field == field && core.Strip(fa.X) == ssa.Value(g.Params[0]) {
+						if _, isMake := x.Val.(*ssa.MakeMap); isMake {
+							// unconditional, or under `== nil` on that field
+							allocs = true
+						}
+					}
+				case *ssa.Call:
+					if x.Call.StaticCallee() == g && len(x.Call.Args) > 0 && core.InnermostLoop(core.Loops(g), b) != nil {
+						// called on a value that comes out of a range over the receiver's children map
+						if depReaches(x.Call.Args[0], func(v ssa.Value) bool {
+							rg, ok := v.(*ssa.Range)
+							if !ok {
+								return false
+							}
+							ld, ok := rg.X.(*ssa.UnOp)
+							if !ok || ld.Op != token.MUL {
+								return false
+							}
+							fa, ok := ld.X.(*ssa.FieldAddr)
+							return ok && fa.Field == field && core.Strip(fa.X) == ssa.Value(g.Params[0])
+						}) {
+							recurses = true
+						}
+					}
+				}
+			}
+		}
+		if allocs && recurses {
+			completes[g] = true
+			c.R.Fn(c.fname(g))
+		}
+	}
+	unmarshal := c.P.FuncObj("github.com/golang/protobuf/proto", "Unmarshal")
+	n := 0
+	for _, f := range c.P.ModFuncs() {
+		if f.Package() == nil || f.Package().Pkg.Path() != c.P.Rel(pkg) || c.P.IsGenerated(f) {
+			continue
+		}
+		for _, b := range f.Blocks {
+			for _, in := range b.Instrs {
+				al, ok := in.(*ssa.Alloc)
+				if !ok || !isNode(al.Type()) || !al.Heap {
+					continue
+				}
+				if _, isStruct := derefT(al.Type()).Underlying().(*types.Struct); !isStruct {
+					continue
+				}
+				n++
+				decoded := false
+				for _, um := range core.CallsIn(f) {
+					if unmarshal != nil && um.Is(unmarshal) && depReaches(um.Arg(1), func(v ssa.Value) bool { return v == ssa.Value(al) }) {
+						decoded = true // whatever the literal held is replaced by what the dump holds, at every level
+					}
+				}
+				if !decoded {
+					if mv := (&builtObj{alloc: al}).field(children); mv != nil {
+						if _, isMake := mv.(*ssa.MakeMap); isMake {
+							continue
+						}
+					}
+				}
+				// decoded, then completed
+				completed := false
+				for _, cl := range core.CallsIn(f) {
+					if cl.Static != nil && completes[cl.Static] && len(cl.Common.Args) > 0 && core.Strip(cl.Common.Args[0]) == ssa.Value(al) {
+						for _, um := range core.CallsIn(f) {
+							if unmarshal != nil && um.Is(unmarshal) && core.Dominates(um.Instr, cl.Instr) && depReaches(um.Arg(1), func(v ssa.Value) bool { return v == ssa.Value(al) }) {
+								completed = true
+							}
+						}
+					}
+				}
+				if !completed {
+					return false
+				}
+			}
+		}
+	}
+	return n > 0
 }
